@@ -25,13 +25,20 @@ General constraints:
 
 import abc
 import functools
-from typing import ClassVar
+from typing import ClassVar, Sequence
 
 import numpy as np
 import onnx_ir as ir
 
 from onnxscript.rewriter._basics import MatchResult
 from onnxscript.rewriter._rewrite_rule import RewriteRuleClassBase, RewriteRuleSet
+
+
+def _scalar_values(inputs: Sequence[ir.Value]) -> np.ndarray:
+    """Returns the values of size-1 constants (of any rank) as a 1-D array."""
+    return np.concatenate(
+        [ir.convenience.get_const_tensor(input_).numpy().reshape(-1) for input_ in inputs]
+    )
 
 
 class _FuseMinMaxBase(RewriteRuleClassBase, abc.ABC):
@@ -93,13 +100,18 @@ class _FuseMinMaxBase(RewriteRuleClassBase, abc.ABC):
         first_node = out1.producer()
         second_node = out2.producer()
 
+        if len(first_node.inputs) < 2 or len(second_node.inputs) < 2:
+            return check_result.fail("Min/Max node without a constant operand.")
+
         # Ensure all inputs except the first are constants
         for input_ in first_node.inputs[1:] + second_node.inputs[1:]:
             if ir.convenience.get_const_tensor(input_) is None:
                 return check_result.fail(f"{input_.name} is not a constant.")
 
             # If scalars are required (Clip fusion), enforce scalar-ness
-            if self.need_scalars and not self._is_scalar(ir.convenience.get_const_tensor(input_).numpy()):
+            if self.need_scalars and not self._is_scalar(
+                ir.convenience.get_const_tensor(input_).numpy()
+            ):
                 return check_result.fail(f"{input_.name} is not a scalar.")
 
         if self.need_scalars and self.check_bounds:
@@ -187,8 +199,8 @@ class FuseMaxMinToClip(_FuseMinMaxBase):
         second_node: ir.Node,
         input_name: str = "",
     ) -> list[tuple[ir.Tensor, str]]:
-        lower_bound = np.max([ir.convenience.get_const_tensor(input_).numpy() for input_ in first_node.inputs[1:]])
-        upper_bound = np.min([ir.convenience.get_const_tensor(input_).numpy() for input_ in second_node.inputs[1:]])
+        lower_bound = np.max(_scalar_values(first_node.inputs[1:]))
+        upper_bound = np.min(_scalar_values(second_node.inputs[1:]))
         return [
             (ir.tensor(lower_bound), f"{input_name}_min"),
             (ir.tensor(upper_bound), f"{input_name}_max"),
@@ -223,8 +235,8 @@ class FuseMinMaxToClip(_FuseMinMaxBase):
         second_node: ir.Node,
         input_name: str = "",
     ) -> list[tuple[ir.Tensor, str]]:
-        upper_bound = np.min([ir.convenience.get_const_tensor(input_).numpy() for input_ in first_node.inputs[1:]])
-        lower_bound = np.max([ir.convenience.get_const_tensor(input_).numpy() for input_ in second_node.inputs[1:]])
+        upper_bound = np.min(_scalar_values(first_node.inputs[1:]))
+        lower_bound = np.max(_scalar_values(second_node.inputs[1:]))
         return [
             (ir.tensor(lower_bound), f"{input_name}_min"),
             (ir.tensor(upper_bound), f"{input_name}_max"),
